@@ -422,3 +422,40 @@ def pick_max_gb(rng, nnz, data_dtype, indptr_dtype, indices_dtype):
         return max_gb_for_lo(rng.randint(100, max(101, nnz)), data_dtype,
                              indptr_dtype, indices_dtype)
     return rng.choice([1e-6, 1e-5, 0.001, 1.0, 10.0])
+
+
+def run_isolated(fn):
+    """run fn() in a forked child and return ('ok', None) / ('err', repr) /
+    ('crash', signal number): a call that may bring the interpreter down
+    (scipy on inconsistent arrays under a mutated code base) must not take the
+    check with it.  The child only reports success or the exception."""
+    import os
+    import pickle
+    import traceback
+    r, w = os.pipe()
+    pid = os.fork()
+    if pid == 0:
+        code = 0
+        try:
+            os.close(r)
+            try:
+                fn()
+                payload = ('ok', None, None)
+            except BaseException as e:   # noqa
+                payload = ('err', type(e).__name__, str(e)[:500])
+            with os.fdopen(w, 'wb') as f:
+                pickle.dump(payload, f)
+        except BaseException:   # noqa
+            traceback.print_exc()
+            code = 1
+        finally:
+            os._exit(code)
+    os.close(w)
+    with os.fdopen(r, 'rb') as f:
+        data = f.read()
+    _, status = os.waitpid(pid, 0)
+    if os.WIFSIGNALED(status):
+        return ('crash', 'signal %d' % os.WTERMSIG(status), '')
+    if not data:
+        return ('crash', 'exit %d' % os.WEXITSTATUS(status), '')
+    return pickle.loads(data)
